@@ -130,9 +130,16 @@ def check(ctx):
                 mentions = contains(c2, lambda x: cid(x) in flist_ids)
                 if not mentions:
                     continue
-                empty_side = (isinstance(strip(c2), Cmp) and strip(c2).op == '>' and not p2) or \
-                    (isinstance(strip(c2), Cmp) and strip(c2).op == '==' and p2) or \
-                    (not isinstance(strip(c2), Cmp) and not p2)
+                cc = strip(c2)
+                is_len = lambda t: is_call(strip(t), 'len') and \
+                    cid(strip(t).args[0]) in flist_ids
+                if isinstance(cc, Cmp) and is_len(cc.left) and is_const(strip(cc.right), 0):
+                    empty_side = (cc.op in ('>', '!=') and not p2) or \
+                        (cc.op == '==' and p2)
+                elif cid(cc) in flist_ids or is_len(cc):
+                    empty_side = not p2           # truthiness of the list / its length
+                else:
+                    continue                       # any(...), custom predicates: not accepted
                 if is_ok and empty_side:
                     ok_code = True
                 if not is_ok and not empty_side:
@@ -191,6 +198,13 @@ def check(ctx):
             if isinstance(o, Obj) and o.site is not None and o.site not in region and \
                     o.site in b.live:
                 bad.append((n, '%s.%s' % (o.cls.name, n.data['name'])))
+    for n in b.nodes('store-item'):
+        if n.id not in region:
+            continue
+        for o in flat(n.data['base']):
+            if isinstance(o, (DictObj, ListObj)) and o.site is not None and \
+                    o.site not in region and o.site in b.live:
+                bad.append((n, 'a dict/list created before the loop (%s)' % (n.src or '')[:60]))
     for n in b.nodes('append'):
         if n.id in region and n.data['list'].site not in region and \
                 n.data['list'].site in b.live and cid(n.data['list']) not in flist_ids:
